@@ -100,4 +100,13 @@ example :
 theorem parse_fuel_irrelevant {f f' : Nat} (h : f ≤ f') {ts : List Token} {e : Expr}
     (hp : parseAll f ts = .ok e) : parseAll f' ts = .ok e := parseAll_mono h hp
 
+/-- The round trip covers comparison atoms too: `A and int(n) > 3 or B` — a comparison binds
+    tighter than `or`, `or` tighter than `and`; under `not` a comparison needs its parentheses. -/
+example :
+    let cmp : Cond := .cmp (.cast ['n'] .int) .gt (.int 3) ⟨rfl, by decide, by decide⟩
+    parse (Cond.and (.id ['A']) (.or cmp (.id ['B']))).pp
+      = .ok (.bin (.ident ['A']) .and (.bin (.bin (.cast ['n'] .int) .gt (.int 3)) .or (.ident ['B']))) ∧
+    (Cond.not cmp).pp = [.miscNot, .lparen, .modifier .int, .lparen, .ident ['n'], .rparen, .op .gt, .int 3, .rparen] :=
+  ⟨parse_print _, rfl⟩
+
 end Tau.C05
